@@ -41,7 +41,9 @@ def the_tree():
 COMPANY = ["'Size'", 'size', "'Name'", 'name', "'size'", "'Path'", 'path', "'IsDir'", 'is_dir', "'Modified'", "'1'", '1',
            "'Size + 1'", 'size + 1', "concat('Size', 'x')", "concat(size, 'x')", "contains('Size')", "contains('Name')",
            "contains(name)", "upper('Name')", 'upper(name)', "length('Size')", 'length(size)', "'LENGTH(Name)'", 'length(name)',
-           "'Hardlinks'", 'hardlinks', "lower('Size')", "coalesce('Name', 'x')", "concat_ws('-', 'Size', size)"]
+           "'Hardlinks'", 'hardlinks', "lower('Size')", "coalesce('Name', 'x')", "concat_ws('-', 'Size', size)",
+           # a quote inside a literal: the two calls read alike once the quotes are stripped
+           'concat("a\', \'b")', "concat('a', 'b')", 'length(concat("a\', \'b"))', "length(concat('a', 'b'))"]
 
 
 def shapes(k):
